@@ -129,28 +129,28 @@ func c02Operands(c *Ctx, raw string) {
 			conds := ""
 			for _, st := range cc.Body {
 				if is, ok := st.(*ast.IfStmt); ok {
-					conds += nospace(core.ExprStr(is.Cond)) + ";;"
+					conds += core.NormCond(is.Cond) + ";;"
 				}
 			}
 			switch {
-			case strings.Contains(conds, "destPort>=match.portStart&&destPort<=match.portEnd"):
+			case strings.Contains(conds, core.NormPat("destPort>=match.portStart&&destPort<=match.portEnd")):
 				gside[typ] = "dport in [start,end] inclusive"
-			case strings.Contains(conds, "sourcePort>=match.portStart&&sourcePort<=match.portEnd"):
+			case strings.Contains(conds, core.NormPat("sourcePort>=match.portStart&&sourcePort<=match.portEnd")):
 				gside[typ] = "sport in [start,end] inclusive"
-			case strings.Contains(conds, "l4proto&consts.L4ProtoType(match.mask)>0"):
+			case strings.Contains(conds, core.NormPat("l4proto&consts.L4ProtoType(match.mask)>0")):
 				gside[typ] = "l4proto & mask"
-			case strings.Contains(conds, "ipVersion&consts.IpVersionType(match.mask)>0"):
+			case strings.Contains(conds, core.NormPat("ipVersion&consts.IpVersionType(match.mask)>0")):
 				gside[typ] = "ipversion & mask"
-			case strings.Contains(conds, "dscp==match.dscp"):
+			case strings.Contains(conds, core.NormPat("dscp==match.dscp")):
 				gside[typ] = "dscp == value"
-			case strings.Contains(conds, "match.pname==processName"):
+			case strings.Contains(conds, core.NormPat("match.pname==processName")):
 				gside[typ] = "pname == value (16 bytes)"
-				if strings.Contains(conds, "processName[0]!=0") {
+				if strings.Contains(conds, core.NormPat("processName[0]!=0")) {
 					gside[typ] += " [gate: name known]"
 				}
 			case strings.Contains(body, "lpm.HasPrefix(targetBin)"):
 				// which probe per type is decided by the inner switch
-			case strings.Contains(conds, "domainMatchBitmap["+rngKey+"/32]>>("+rngKey+"%32))&1>0"):
+			case strings.Contains(conds, core.NormPat("(domainMatchBitmap["+rngKey+"/32]>>("+rngKey+"%32))&1>0")):
 				gside[typ] = "bit (index%32) of word (index/32) of the daddr entry"
 			case strings.Contains(body, "goodSubrule = true") && conds == "":
 				gside[typ] = "always"
@@ -159,11 +159,15 @@ func c02Operands(c *Ctx, raw string) {
 		// inner switch: probe selection
 		if len(cc.List) == 1 {
 			typ := strings.TrimPrefix(core.ExprStr(cc.List[0]), "consts.")
-			if len(cc.Body) == 1 {
-				if as, ok := cc.Body[0].(*ast.AssignStmt); ok && core.ExprStr(as.Lhs[0]) == "targetBin" {
-					probe := map[string]string{"ipSetBin": "daddr", "sourceIpSetBin": "saddr", "macBin": "mac"}[core.ExprStr(as.Rhs[0])]
-					gside[typ] = "lpm(" + probe + ", set index)"
+			var sets []*ast.AssignStmt
+			for _, st := range cc.Body {
+				if as, ok := st.(*ast.AssignStmt); ok && len(as.Lhs) == 1 && len(as.Rhs) == 1 && core.ExprStr(as.Lhs[0]) == "targetBin" {
+					sets = append(sets, as)
 				}
+			}
+			if len(sets) == 1 {
+				probe := map[string]string{"ipSetBin": "daddr", "sourceIpSetBin": "saddr", "macBin": "mac"}[core.ExprStr(sets[0].Rhs[0])]
+				gside[typ] = "lpm(" + probe + ", set index)"
 			}
 		}
 		return true
